@@ -16,6 +16,7 @@ C09 == INSTANCE Mon_C09 WITH MCfg <- P
 C17 == INSTANCE Mon_C17 WITH MCfg <- P
 C10 == INSTANCE Mon_C10 WITH MCfg <- P
 C19 == INSTANCE Mon_C19 WITH MCfg <- P
+C18 == INSTANCE Mon_C18 WITH MCfg <- P
 
 IsObs(tr) == tr # <<>> /\ "obs" \in DOMAIN tr[1]      \* a sequence of idle observations (C19 scaling), not a history
 Verdicts(tr) ==
@@ -29,7 +30,8 @@ Verdicts(tr) ==
    C09 |-> FoldLeft(C09!Step, C09!Init, tr).viol,
    C17 |-> FoldLeft(C17!Step, C17!Init, tr).viol,
    C10 |-> FoldLeft(C10!Step, C10!Init, tr).viol,
-   C19 |-> FoldLeft(C19!Step, C19!Init, tr).viol]
+   C19 |-> FoldLeft(C19!Step, C19!Init, tr).viol,
+   C18 |-> FoldLeft(C18!Step, C18!Init, tr).viol]
 
 ASSUME JsonSerialize(IOEnv.OUT, [i \in 1..Len(Traces) |-> Verdicts(Traces[i])])
 
